@@ -5,10 +5,10 @@ package c37
 
 import (
 	"context"
-	"sync/atomic"
 	"encoding/json"
 	"fmt"
 	"sync"
+	"sync/atomic"
 	"time"
 
 	"github.com/sharedcode/sop"
@@ -154,17 +154,17 @@ func jitter() {
 // ---- the workload ----
 
 type RoundRes struct {
-	Sig        string   `json:"sig"`
-	Overlapped bool     `json:"overlapped"`
-	Committed  int      `json:"committed"`
-	Failed     int      `json:"failed"`
-	Flips      int      `json:"flips"`
-	Nodes      int      `json:"nodes"`
-	Events     int64    `json:"registry_events"`
-	Problems   []string `json:"problems,omitempty"`
-	Slot       int      `json:"slot"`
-	Profile    string   `json:"profile"`
-	Harness    string   `json:"harness,omitempty"`
+	Sig         string   `json:"sig"`
+	Overlapped  bool     `json:"overlapped"`
+	Committed   int      `json:"committed"`
+	Failed      int      `json:"failed"`
+	Flips       int      `json:"flips"`
+	Nodes       int      `json:"nodes"`
+	Events      int64    `json:"registry_events"`
+	Problems    []string `json:"problems,omitempty"`
+	Slot        int      `json:"slot"`
+	Profile     string   `json:"profile"`
+	Harness     string   `json:"harness,omitempty"`
 	SampleFlips []string `json:"sample_flips,omitempty"`
 }
 
